@@ -106,6 +106,15 @@ def check_case(case, ctx):
         exp_off = {got == want or ng == nw}
         act_on = bool(checker.check_output(got, want, _state(True)))
         act_off = bool(checker.check_output(got, want, _state(False)))
+        # the flag may also be switched on an existing state by item assignment
+        s_on = _state(False)
+        s_on['ELLIPSIS'] = True
+        s_off = _state(True)
+        s_off['ELLIPSIS'] = False
+        if bool(checker.check_output(got, want, s_on)) != act_on or bool(checker.check_output(got, want, s_off)) != act_off:
+            raise Violation('check_output:flag_set_by_assignment',
+                            "check_output({!r}, {!r}) differs between a state constructed with ELLIPSIS on/off ({}, {}) and one "
+                            "where the flag was assigned afterwards".format(got, want, act_on, act_off))
         if act_on not in exp_on:
             raise Violation('check_output:+ELLIPSIS:' + ('false_match' if act_on else 'false_mismatch'),
                             'check_output({!r}, {!r}) with ELLIPSIS on = {} but the definition says {}'.format(
